@@ -6,11 +6,25 @@
 (* observation may be any output meeting the contract (any order of structs   *)
 (* and fields, either spelling of a reference), every later observation of    *)
 (* the same input must be identical to the first.                              *)
+(* The machine is the life of ONE DIRECTORY: dir is the input whose output    *)
+(* typedef_output.go holds (NoFile: fresh).  Prepare puts the output of       *)
+(* ANOTHER input there before the first run - the same document with other    *)
+(* arguments, or the same arguments with a document that has one object less  *)
+(* / one object more (a longer output first and then a shorter one, and the   *)
+(* other way round) -; every run leaves its own output, so that the second    *)
+(* run is a run over the output of the same input.  What Observe accepts does *)
+(* not depend on dir: the prepared states have the successors of the fresh    *)
+(* one.  Every state before the first run is exported as a vector (prev =     *)
+(* dir): the harness puts the real output of prev into the directory, runs    *)
+(* the input there and demands exp, valid Go and the bytes the same input     *)
+(* gives in a fresh directory.                                                *)
 (*                                                                            *)
 (* Documents: 0..MaxObjs objects, 0..MaxProps properties each (every shape);  *)
 (* the properties take their types from the cyclic sequence Kinds (every type *)
-(* ID; references to each object of the document, to itself, to an object     *)
-(* outside the document), started at every offset in Rots.  The names come    *)
+(* ID, without and WITH an id of its own - the inline object that carries its *)
+(* ID, and an id next to every other type ID; references to each object of    *)
+(* the document, to itself, to an object outside the document), started at    *)
+(* every offset in Rots.  The names come    *)
 (* from three NAMING SCHEMES: "plain" (pairwise different words), "fold"      *)
 (* (names that differ only in the capitalisation after the first letter:      *)
 (* NodeSpec / Nodespec / NODESPEC, podIP / podIp / podip) and "title" (names  *)
@@ -20,11 +34,15 @@ EXTENDS Codegen, Export
 CONSTANTS MaxObjs,   \* objects per document 0..MaxObjs (<= 3)
           MaxProps,  \* properties per object 0..MaxProps (<= 3)
           Rots,      \* offsets into Kinds, scheme "plain"
-          RotsAlt    \* offsets into Kinds, schemes "fold" and "title"
+          RotsAlt,   \* offsets into Kinds, schemes "fold" and "title"
+          SeqSchemes, \* Prepare (a used directory) for the documents of these schemes ...
+          SeqRots    \* ... at these offsets
 VARIABLES v,         \* the input [doc, args]
+          par,       \* the parameters v.doc was made from [sch, n, counts, r] (constant along a behaviour)
           seen,      \* Observe: input -> first observation
-          nobs       \* number of observations so far (saturates at 2)
-vars == <<v, seen, nobs>>
+          nobs,      \* number of observations so far (saturates at 2)
+          dir        \* the input whose output the directory's typedef_output.go holds (NoFile: none)
+vars == <<v, par, seen, nobs, dir>>
 
 \* ------------------------------------------------------------------ names (abstraction table)
 \* name -> title-cased form, lower-cased form; checked by the harness against the standard library
@@ -65,17 +83,25 @@ KeyIn(nm, names) ==
     THEN NameTable[nm].title ELSE NameTable[nm].fold
 
 \* ------------------------------------------------------------------ property kinds
-K(tid, target) == [tid |-> tid, target |-> target]   \* target: 0 none, 1..3 object index, 4 outside
-Kinds == << K("string", 0), K("integer", 0), K("ref", 1), K("float", 0), K("map", 0), K("bool", 0),
-            K("ref", 4), K("list", 0), K("enum_string", 0), K("ref", 2), K("enum_integer", 0),
-            K("pattern", 0), K("scope", 0), K("object", 0), K("one_of_string", 0), K("ref", 3),
-            K("one_of_int", 0), K("any", 0) >>
+\* target = the id written in the type mapping: 0 none, 1..3 the name of that object of the
+\* document, 4 a name outside the document.  With "ref" it is the referenced object; with any
+\* other type ID it is an id the type carries itself (every non-ref type ID occurs with one).
+K(tid, target) == [tid |-> tid, target |-> target]
+Kinds == << K("string", 0), K("integer", 0), K("ref", 1), K("object", 4), K("float", 0), K("map", 0),
+            K("bool", 0), K("string", 1), K("ref", 4), K("list", 0), K("integer", 2), K("enum_string", 0),
+            K("ref", 2), K("float", 3), K("enum_integer", 0), K("object", 1), K("pattern", 0),
+            K("scope", 0), K("bool", 4), K("object", 0), K("one_of_string", 0), K("ref", 3), K("list", 2),
+            K("one_of_int", 0), K("any", 0), K("enum_string", 3), K("enum_integer", 1), K("pattern", 2),
+            K("scope", 4), K("one_of_string", 1), K("one_of_int", 3), K("any", 2), K("map", 4) >>
 NK == Len(Kinds)
+ASSUME \A i \in 1..NK : Kinds[i].tid = "ref" => Kinds[i].target # 0
+ASSUME \A t \in TypeIDs \ {"ref"} : \E i, j \in 1..NK :
+            Kinds[i] = K(t, 0) /\ Kinds[j].tid = t /\ Kinds[j].target # 0
 
 RECURSIVE Before(_, _)
 Before(counts, i) == IF i <= 1 THEN 0 ELSE counts[i - 1] + Before(counts, i - 1)
 
-RefName(sch, kind, n) == IF kind.tid # "ref" THEN ""
+RefName(sch, kind, n) == IF kind.target = 0 THEN ""
                          ELSE IF kind.target \in 1..n THEN ObjNamesOf(sch)[kind.target] ELSE Outside
 
 MkProp(sch, k, m, kind, n) ==      \* k-th property; m = most properties among the objects of its group
@@ -105,22 +131,51 @@ ArgForms(sch, n) == {[form |-> "no_ignore", ign |-> ""]}
 Perms(S) == {p \in [1..Cardinality(S) -> S] : \A i, j \in DOMAIN p : p[i] = p[j] => i = j}
 Outs(doc, args) == {Emitted(doc, p, rev, titled) : p \in Perms(Live(doc, args)), rev \in BOOLEAN, titled \in BOOLEAN}
 
+\* ------------------------------------------------------------------ a used directory
+\* the inputs whose output the directory may hold before the first run of v: the same document
+\* with each other argument form (no argument <-> an object ignored <-> a name that is no
+\* object), and the same arguments with the document cut by its last object / grown by one
+\* more object (of MaxProps properties)
+PrevInputs ==
+    IF par.sch \notin SeqSchemes \/ par.r \notin SeqRots THEN {}
+    ELSE {[doc |-> v.doc, args |-> a] : a \in ArgForms(par.sch, par.n) \ {v.args}}
+         \cup (IF par.n >= 1
+                THEN {[doc |-> MkDoc(par.sch, par.n - 1, [i \in 1..(par.n - 1) |-> par.counts[i]], par.r),
+                       args |-> v.args]}
+                ELSE {})
+         \cup (IF par.n < MaxObjs
+                THEN {[doc |-> MkDoc(par.sch, par.n + 1,
+                                     [i \in 1..(par.n + 1) |-> IF i <= par.n THEN par.counts[i] ELSE MaxProps], par.r),
+                       args |-> v.args]}
+                ELSE {})
+
 \* ------------------------------------------------------------------ the machine
 Init ==
     \E sch \in Schemes : \E n \in 0..MaxObjs : \E counts \in [1..n -> 0..MaxProps] :
     \E r \in (IF sch = "plain" THEN Rots ELSE RotsAlt) : \E a \in ArgForms(sch, n) :
         /\ v = [doc |-> MkDoc(sch, n, counts, r), args |-> a]
+        /\ par = [sch |-> sch, n |-> n, counts |-> counts, r |-> r]
         /\ seen = NoObs
         /\ nobs = 0
+        /\ dir = NoFile
 
+\* an earlier run of another input in this directory has left its output
+Prepare(w) ==
+    /\ nobs = 0 /\ dir = NoFile
+    /\ dir' = w
+    /\ UNCHANGED <<v, par, seen, nobs>>
+
+\* a run: what is accepted does not depend on dir; afterwards the file holds this input's output
 Observe(out) ==
     /\ nobs < 2
     /\ ObsAccepts(seen, v, out)
     /\ seen' = ObsRecord(seen, v, out)
     /\ nobs' = nobs + 1
-    /\ UNCHANGED v
+    /\ dir' = v
+    /\ UNCHANGED <<v, par>>
 
-Next == \E out \in Outs(v.doc, v.args) : Observe(out)
+Next == \/ \E out \in Outs(v.doc, v.args) : Observe(out)
+        \/ \E w \in PrevInputs : Prepare(w)
 Spec == Init /\ [][Next]_vars
 
 \* "Running it again on the same input produces byte-identical output"
@@ -134,7 +189,11 @@ ModelOK ==
         live == Live(doc, args)
     IN /\ WF(doc)
        /\ Shape(doc) \in {"empty", "single", "multi", "multi_casevariant"}
-       /\ nobs = 0 =>
+       \* the directory: fresh or holding another input's output before the first run, this
+       \* input's own output after it
+       /\ nobs = 0 => dir = NoFile \/ (dir # v /\ WF(dir.doc) /\ dir.args.form \in {"no_ignore", "with_ignore"})
+       /\ nobs > 0 => dir = v
+       /\ (nobs = 0 /\ dir = NoFile) =>
             \* exactly one struct per non-ignored object, one field per property
             /\ Cardinality(Gen(doc, args)) = Cardinality(live)
             /\ \A i \in live : \E g \in Gen(doc, args) :
@@ -157,10 +216,25 @@ ModelOK ==
             /\ (live # DOMAIN doc) =>
                   LET all == Emitted(doc, [i \in DOMAIN doc |-> i], FALSE, FALSE)
                   IN ~Meets(doc, args, all) /\ Verdict(doc, args, all) = "ignored_struct_emitted"
+            \* a property is a reference by its type ID, not by carrying an id: a generator that
+            \* types every property with an id by that id is rejected (wherever the statement fixes
+            \* the type), and the diagnosis names a type ID that carries an id
+            /\ LET idt == EmittedIdTyped(doc, CHOOSE p \in Perms(live) : TRUE)
+                    carried == {q \in UNION {Range(doc[i].props) : i \in live} : Carried(q) /\ ~TypeFree(q)}
+               IN IF carried = {} THEN Meets(doc, args, idt)
+                  ELSE /\ ~Meets(doc, args, idt)
+                       /\ Verdict(doc, args, idt) # "ok"
+                       \* (structs that share a key - foo / Foo - may be diagnosed against each other)
+                       /\ ~CaseVariants(doc) => /\ Verdict(doc, args, idt) = "wrong_field_type"
+                                                /\ WrongTypeOf(doc, args, idt) \in {q.tid : q \in carried}
+                                                /\ WrongTypeCarriesId(doc, args, idt)
        /\ Observed(seen, v) => Meets(doc, args, seen[v])
 
+\* one vector per state before the first run: the input, what the directory holds (prev; its
+\* args.form is "fresh" for a fresh directory) and the structs Gen demands
 Export ==
     nobs = 0 => Emit([doc |-> v.doc, args |-> v.args, shape |-> Shape(v.doc),
                       sat |-> Satisfiable(v.doc, v.args),
-                      exp |-> [structs |-> Gen(v.doc, v.args)]])
+                      exp |-> [structs |-> Gen(v.doc, v.args)],
+                      prev |-> dir])
 =============================================================================
